@@ -16,6 +16,7 @@ def tuplify(x):
 
 
 def fix_rpc(rpc):
+  from harness import svc
   rpc = list(rpc)
   kind = rpc[0]
 
@@ -24,7 +25,7 @@ def fix_rpc(rpc):
   if kind in ('SuggestTrials', 'CheckEarlyStop'):
     o = rpc[-1]
     if o[0] == 'fail':
-      o = ('fail', {'ValueError': ValueError, 'RuntimeError': RuntimeError, 'KeyError': KeyError, 'AssertionError': AssertionError}[o[1]])
+      o = ('fail', {c.__name__: c for c in svc.FAIL_CLASSES}[o[1]])
     elif o[0] == 'deliver':
       o = ('deliver', list(o[1]), [tuple(kv) for kv in o[2]], [(t, tuple(kv)) for t, kv in o[3]])
     else:
